@@ -187,6 +187,29 @@ func c02OverLimit() *explore.Scenario {
 		}},
 		{"tokenbinding-256", func() tls.TLSExtension { return &tls.FakeTokenBindingExtension{KeyParameters: make([]uint8, 256)} }},
 	}
+	// the extensions block as a whole exceeds 65535 although every extension fits its own prefix
+	// (padding last / first / computed by callback / absent), and one block just below the limit
+	more := map[string]func() []tls.TLSExtension{
+		"generic-60000+padding-6000": func() []tls.TLSExtension {
+			return []tls.TLSExtension{&tls.UtlsPaddingExtension{WillPad: true, PaddingLen: 6000}}
+		},
+		"padding-30000+ticket-40000": func() []tls.TLSExtension {
+			return []tls.TLSExtension{&tls.SessionTicketExtension{Ticket: make([]byte, 40000), Initialized: true}}
+		},
+		"generic-40000+cookie-30000": func() []tls.TLSExtension { return []tls.TLSExtension{&tls.CookieExtension{Cookie: make([]byte, 30000)}} },
+		"cookie-65000+padding-getlen-600": func() []tls.TLSExtension {
+			return []tls.TLSExtension{&tls.UtlsPaddingExtension{GetPaddingLen: func(int) (int, bool) { return 600, true }}}
+		},
+		"generic-60000+padding-5000": func() []tls.TLSExtension {
+			return []tls.TLSExtension{&tls.UtlsPaddingExtension{WillPad: true, PaddingLen: 5000}}
+		},
+	}
+	probes = append(probes,
+		probe{"generic-60000+padding-6000", func() tls.TLSExtension { return &tls.GenericExtension{Id: 0x1234, Data: make([]byte, 60000)} }},
+		probe{"padding-30000+ticket-40000", func() tls.TLSExtension { return &tls.UtlsPaddingExtension{WillPad: true, PaddingLen: 30000} }},
+		probe{"generic-40000+cookie-30000", func() tls.TLSExtension { return &tls.GenericExtension{Id: 0x1234, Data: make([]byte, 40000)} }},
+		probe{"cookie-65000+padding-getlen-600", func() tls.TLSExtension { return &tls.CookieExtension{Cookie: make([]byte, 65000)} }},
+		probe{"generic-60000+padding-5000", func() tls.TLSExtension { return &tls.GenericExtension{Id: 0x1234, Data: make([]byte, 60000)} }})
 	return &explore.Scenario{
 		Name: "over-limit-probes",
 		Run: func(x *explore.X) (r explore.Result) {
@@ -194,6 +217,9 @@ func c02OverLimit() *explore.Scenario {
 			mk := func() *tls.ClientHelloSpec {
 				s := specOf()()
 				s.Extensions = []tls.TLSExtension{&tls.SNIExtension{}, p.mk()}
+				if m := more[p.name]; m != nil {
+					s.Extensions = append(s.Extensions, m()...)
+				}
 				return s
 			}
 			stream, _, perr, pm := firstFlight(peer.ClientConfig("example.com"), tls.HelloCustom, applySpec(mk))
